@@ -511,6 +511,130 @@ func ruleC02Safe(p *Prog, a *Anchors, r *Report) {
 				}
 			}
 		}
+		// a call in between: the bit taken from the *Value that held a FUNCTION must not mark what the function returned
+		// (Go code marked the function value, not the text its call hands back). Along the phis that carry an unwrapped
+		// value's bit to this store, no reflective call lies between where the bit is defined and the edge it travels on.
+		{
+			var hdr *ssa.BasicBlock
+			reachAvoid := func(from *ssa.BasicBlock) map[*ssa.BasicBlock]bool {
+				out := map[*ssa.BasicBlock]bool{}
+				var visit func(b *ssa.BasicBlock)
+				visit = func(b *ssa.BasicBlock) {
+					if out[b] || b == hdr {
+						return
+					}
+					out[b] = true
+					for _, sc := range b.Succs {
+						visit(sc)
+					}
+				}
+				for _, sc := range from.Succs {
+					visit(sc)
+				}
+				return out
+			}
+			var rcs []*ssa.Call
+			for _, b := range f.Blocks {
+				for _, x := range b.Instrs {
+					if c, ok := x.(*ssa.Call); ok && c02ReflectiveCall(p, c, 0) {
+						rcs = append(rcs, c)
+					}
+				}
+			}
+			isSafeLoad := func(v ssa.Value) bool {
+				_, n, fld := fieldLoadBase(v)
+				return n != nil && n.Obj().Name() == "Value" && fld == "safe"
+			}
+			var leads func(v ssa.Value, d int) bool
+			leads = func(v ssa.Value, d int) bool {
+				if d > 8 {
+					return false
+				}
+				if isSafeLoad(v) {
+					return true
+				}
+				if ph, ok := v.(*ssa.Phi); ok {
+					for _, e := range ph.Edges {
+						if e != v && leads(e, d+1) {
+							return true
+						}
+					}
+				}
+				return false
+			}
+			defBlock := func(v ssa.Value) *ssa.BasicBlock {
+				if in, ok := v.(ssa.Instruction); ok {
+					return in.Block()
+				}
+				return nil
+			}
+			// between(D, vDef, B): a reflective call after the definition (block D; vDef's own index when in D) and
+			// before the end of block B, without passing the loop header
+			between := func(v ssa.Value, to *ssa.BasicBlock, toIdx int) *ssa.Call {
+				D := defBlock(v)
+				if D == nil {
+					return nil
+				}
+				hdr = innermostLoopHeader(D)
+				fromD := reachAvoid(D)
+				for _, rc := range rcs {
+					rb := rc.Block()
+					afterDef := fromD[rb]
+					if rb == D {
+						if in, ok := v.(ssa.Instruction); ok && (instrIndex(rc) > instrIndex(in) || isPhiValue(v)) {
+							afterDef = true
+						}
+					}
+					if !afterDef {
+						continue
+					}
+					if rb == to {
+						if toIdx < 0 || instrIndex(rc) < toIdx {
+							return rc
+						}
+						continue
+					}
+					if reachAvoid(rb)[to] {
+						return rc
+					}
+				}
+				return nil
+			}
+			var offending *ssa.Call
+			var check func(v ssa.Value, d int)
+			seenP := map[ssa.Value]bool{}
+			check = func(v ssa.Value, d int) {
+				if d > 8 || seenP[v] || offending != nil {
+					return
+				}
+				seenP[v] = true
+				ph, ok := v.(*ssa.Phi)
+				if !ok {
+					return
+				}
+				for i, e := range ph.Edges {
+					if !leads(e, 0) || i >= len(ph.Block().Preds) {
+						continue
+					}
+					if rc := between(e, ph.Block().Preds[i], -1); rc != nil {
+						offending = rc
+						return
+					}
+					check(e, d+1)
+				}
+			}
+			if leads(st.Val, 0) {
+				if rc := between(st.Val, st.Block(), instrIndex(st)); rc != nil {
+					offending = rc
+				}
+				check(st.Val, 0)
+				if offending != nil {
+					r.Bad(key+"across-call", p.InstrPos(in), "the safe bit copied from an unwrapped *Value is still in effect after the call at %s replaced the value by what the call returned: a function marked safe (AsSafeValue(func…), a method value) hands its mark to the plain text it returns, and {{ echo(userInput) }} prints caller text unescaped although nobody marked that text", p.InstrPos(offending))
+				} else if len(rcs) > 0 {
+					r.OK(key+"across-call", p.InstrPos(in), "no reflective call lies between the unwrapping that yields the bit and the edges it reaches this store on (%d call sites looked at)", len(rcs))
+				}
+			}
+		}
 		// the val stored into the same object
 		obj := st.Addr.(*ssa.FieldAddr).X
 		var valStored ssa.Value
@@ -982,4 +1106,29 @@ func ruleC02NeedsEscape(p *Prog, a *Anchors, r *Report) {
 	} else {
 		r.Bad("needsEscape:string-kind", p.Pos(pred.Pos()), "needsEscape() no longer tests for string kinds: plain strings would be exempt from escaping")
 	}
+}
+
+func isPhiValue(v ssa.Value) bool { _, ok := v.(*ssa.Phi); return ok }
+
+// c02ReflectiveCall: the call runs code of the caller through reflection: (reflect.Value).Call itself, or a function
+// of the package that makes such a call (two levels).
+func c02ReflectiveCall(p *Prog, c *ssa.Call, depth int) bool {
+	g := c.Common().StaticCallee()
+	if g == nil {
+		return false
+	}
+	if nm := p.extName(g); nm == "(reflect.Value).Call" || nm == "(reflect.Value).CallSlice" {
+		return true
+	}
+	if !p.InPkg(g) || g.Blocks == nil || depth >= 2 {
+		return false
+	}
+	for _, b := range g.Blocks {
+		for _, in := range b.Instrs {
+			if cc, ok := in.(*ssa.Call); ok && c02ReflectiveCall(p, cc, depth+1) {
+				return true
+			}
+		}
+	}
+	return false
 }
